@@ -21,7 +21,7 @@ ASSUMPTIONS = ["strictness is required only when one tick lasts >= 2 us at every
 def required(tier):
     return ["pair_straddles_1_tempo_change", "pair_straddles>=3_tempo_changes", "strict_eligible_map", "map_exactly_at_strict_bound",
             "non_eligible_equal_consecutive_times_seen", "cross_track_equal_tick_pairs", "note_end_vs_start", "chart_with_anchor_lines",
-            "chart_with_nonzero_offset"]
+            "chart_with_nonzero_offset", "whole_generated_chart"]
 
 
 def shards(tier, seed):
@@ -133,6 +133,23 @@ def run_map(rec, rng, i):
     check(rec, out.chart, tm, ticks, rcase, style)
 
 
+def run_whole_chart(rec, rng, i):
+    """a whole generated chart (chords, held notes over later notes, phrases, several tracks, all global kinds): same oracle"""
+    case = gen.gen_chart(rng, "hostile" if i % 2 else "realistic", n_tracks=rng.choice([1, 2, 4]), n_groups=rng.choice([5, 40, 200]),
+                         n_tempos=rng.choice([1, 2, 6, 25]))
+    tm = model.TempoMap(case["truth"]["resolution"], case["truth"]["tempos"])
+    hz = min(tm.horizon(9 * 10**5 * 10**6), max(case["horizon"], tm.ticks[-1]) + 10**4)
+    ticks = sweep_ticks(rng, tm, hz)
+    out = harness.parse(case["text"])
+    rcase = {"text": case["text"], "ticks": ticks}
+    if not out.ok:
+        rec.ev()
+        rec.violation("well-formed-chart-rejected", f"chart rejected with {harness.exc_str(out.exc)}", rcase, f"rejected:{type(out.exc).__name__}")
+        return
+    rec.cls("whole_generated_chart")
+    check(rec, out.chart, tm, ticks, rcase, "whole_chart")
+
+
 def check(rec, chart, tm, ticks, rcase, style):
     be = chart.sync_track.bpm_events
     strict = tm.strict_eligible()
@@ -215,7 +232,10 @@ def run_shard(shard, rec, tier, seed):
     harness.setup()
     for i in range(shard["count"]):
         rng = harness.rng_for(seed, ID, shard["name"], i)
-        run_map(rec, rng, i)
+        if i % 5 == 4:
+            run_whole_chart(rec, rng, i)
+        else:
+            run_map(rec, rng, i)
         if rec.full:
             break
     harness.finish(rec)
